@@ -131,7 +131,10 @@ def search(ctx):
                 got = None      # the bytes on disk (coding cookie honoured) are no longer a Python file
             if got is None or (lvl == "compile" and got != "compile"):
                 variant = name.split("_", 1)[1] if "_" in name else name
-                ctx.fail({"kind": "rewritten-file-does-not-parse", "codemod": cid}, f"{cid} on variant {variant}: the rewritten file no longer {'compiles' if lvl == 'compile' else 'parses'}",
+                sig = {"kind": "rewritten-file-does-not-parse", "codemod": cid}
+                if "import __future__" in rec["before"] and "from __future__ import" in rec["before"]:
+                    sig["shape"] = "module-__future__-imported-next-to-a-future-statement"
+                ctx.fail(sig, f"{cid} on variant {variant}: the rewritten file no longer {'compiles' if lvl == 'compile' else 'parses'}",
                          {"codemod": cid, "program": name, "before": rec["before"], "after": rec["after"]})
     # sequences: ordered pairs / triples on shared files, and the default set on a mixed project
     seeds = e2e.load_seeds()
